@@ -9,7 +9,7 @@ use std::io::Read;
 use std::time::Duration;
 
 const MAX_STACK: u32 = 60_000;
-const MEM_LIMIT_EXTRA: usize = 8 << 20;
+const MEM_LIMIT_EXTRA: usize = 16 << 20;
 
 /// (kind, fails?, program)
 pub fn kinds() -> Vec<(&'static str, bool, String)> {
@@ -156,13 +156,24 @@ pub fn child_main() {
     // 2. histories
     let mut rng = gv::rng::Rng::new(seed, 66);
     let n_hist = if thorough { 300 } else { 40 };
+    let kidx = |n: &str| ks.iter().position(|k| k.0 == n).unwrap();
+    // fixed scenarios first: the consequences of the leak that random histories only sometimes reach
+    let scenarios: Vec<Vec<usize>> = vec![
+        vec![kidx("stack-overflow"), kidx("ok-rec")],
+        {
+            let mut v = vec![kidx("oom"); 10];
+            v.push(kidx("err-deep-200"));
+            v.push(kidx("ok-array"));
+            v
+        },
+    ];
     let histories: Vec<Vec<usize>> = match replay {
         Some(h) => vec![h],
-        None => (0..n_hist)
+        None => scenarios.into_iter().chain((0..n_hist)
             .map(|i| {
                 let len = if i < 13 { i % 13 } else { rng.range(1, 12) as usize };
                 (0..len).map(|_| rng.below(ks.len() as u64) as usize).collect()
-            })
+            }))
             .collect(),
     };
     for h in histories {
@@ -306,13 +317,17 @@ fn digest(out: &mut Out, text: &str, status: &str) {
                     .and_then(|s| s.split(':').next())
                     .and_then(|s| s.parse().ok())
                     .unwrap_or(0);
-                let culprit = hist[..pos]
-                    .iter()
-                    .filter(|k| ks[**k].1)
-                    .map(|k| ks[*k].0)
-                    .find(|n| *n == "stack-overflow")
-                    .or_else(|| hist[..pos].iter().rev().filter(|k| ks[**k].1).map(|k| ks[*k].0).next())
-                    .unwrap_or("none");
+                // closed set of culprits: what the earlier failed runs left behind
+                let before: Vec<&str> = hist[..pos].iter().filter(|k| ks[**k].1).map(|k| ks[*k].0).collect();
+                let culprit = if before.contains(&"stack-overflow") {
+                    "stack-overflow"
+                } else if before.contains(&"oom") {
+                    "oom"
+                } else if before.is_empty() {
+                    "none"
+                } else {
+                    "accumulated-leak"
+                };
                 out.oracle_fail(
                     &format!("history-differs:after:{}", culprit),
                     &format!(
